@@ -454,6 +454,9 @@ var c11kinds = []c11kind{
 	{"badip", `{"ip":"10.0.0.300","mac":"0e:0e:0e:0e:0e:0e","vendor":"v"}`, false, [4]byte{}, nil},
 	{"blank", ``, false, [4]byte{}, nil},
 	{"notjson", `{"ip":"10.0.0.1","mac":`, false, [4]byte{10, 0, 0, 1}, nil},
+	// a valid entry on a line of 70 kB (a long unknown field): beyond what a line reader may hold. Refusing
+	// the file is fine; accepting it means the whole file counts, the lines after this one included
+	{"Clong", `{"ip":"10.0.0.3","mac":"02:00:00:00:00:03","vendor":"","note":"` + strings.Repeat("n", 70000) + `"}`, true, [4]byte{10, 0, 0, 3}, []byte{0x02, 0, 0, 0, 0, 0x03}},
 }
 
 var c11fileIPs = [][4]byte{{10, 0, 0, 1}, {10, 0, 0, 2}, {10, 0, 0, 3}}
@@ -487,8 +490,20 @@ func c11judgeFile(seq []int, finalNL bool) (class, detail, outcome string) {
 	}
 	file := sb.String()
 	cache, err, p := c11load([]byte(file))
+	show := file
+	if len(show) > 600 {
+		show = strings.ReplaceAll(show, strings.Repeat("n", 70000), "n...(70000 bytes)")
+	}
+	file = show
 	if p != nil {
 		return "loader-panic", fmt.Sprintf("FillCache panicked on %q: %v", file, p), ""
+	}
+	hasLong := false
+	for _, s := range seq {
+		hasLong = hasLong || len(c11kinds[s].text) > 65536
+	}
+	if hasLong && err != nil {
+		return "", "", "file:over-long-line:rejected"
 	}
 	if allValid {
 		if err != nil {
